@@ -653,6 +653,13 @@ def run(tier, seed):
                          {"python": make_snippet(P, gs, custom, spellings[s_idx], i, "recursion"), "program": describe(P, gs, i),
                           "spelling": [gs[g][1][k] for (_v, g), k in zip(P.leaves, spellings[s_idx])]})
                 return
+            if any(e == "SymbolNotFoundError" for _s, e in excs):
+                # a unit of the custom registry that ended up attached to the default registry (arctan2 and the
+                # comparison rules return the *default* registry's dimensionless unit) cannot be simplified
+                s_idx = [s_ for s_, e in excs if e == "SymbolNotFoundError"][0]
+                chk.fail("arith|registry-lost", f"{op} ({form}): SymbolNotFoundError — an operand's custom-registry unit is attached to the default registry",
+                         {"python": make_snippet(P, gs, custom, spellings[s_idx], i, "registry-lost"), "program": describe(P, gs, i)})
+                return
             if excs and len(excs) == len([k for k in kinds if k != "skip"]):
                 chk.count(f"refused:{op}:{excs[0][1]}")
                 # refused in every spelling: no result, nothing to compare — but the refusal of an
@@ -1042,6 +1049,30 @@ def run(tier, seed):
         nprog_model += 1
         chk.count("model-program")
 
+    # the out= fix-up: does `x *= q` terminate?
+    for us in ["km/m", "percent**2", "J/erg", "km", "m*s", "dimensionless", "km*s/m", "N*m/J", "kHz*ms", "cm*km", "hr/min"]:
+        for qs in [None, "m", "1/km", "s", "cm/m"]:
+            try:
+                U = Unit(us)
+                qu = Unit(qs) if qs else Unit()
+                lib_mul = float(registry[np.multiply](U, qu)[0])
+            except Exception:  # noqa: BLE001
+                continue
+            xq = unyt_array([1.0, 2.0], U)
+            try:
+                if qs:
+                    xq *= unyt_quantity(2.0, qu)
+                else:
+                    xq *= 2.0
+                lib = "fixed"
+            except RecursionError:
+                lib = "recursion"
+            except Exception as e:  # noqa: BLE001
+                lib = core.exc_name(e)
+            model_lines.append("\t".join(["c04.outfix"] + wire_unit(U) + [str(core.f2b(lib_mul))]))
+            model_expect.append(("outfix", (us, qs, lib_mul, lib)))
+            chk.case(("model-outfix", us, qs))
+
     # unary / reductions / dot / pow
     # (isnat: NumPy's kernel itself rejects floats, before any unit logic matters)
     unary_names = [n for n in X.get("ufuncRules", {}) if n in X.get("unary", []) and n != "isnat"]
@@ -1208,6 +1239,11 @@ def run(tier, seed):
             lv = float(np.asarray(r.d if hasattr(r, "units") else r))
             if not vclose(mv, lv, abs(x0) + abs(x1 * conv) if name in ("add", "subtract", "remainder", "fmod", "nextafter") else 0.0):
                 chk.disagree("c04.binary", f"{what}: model value {mv!r} (conv {conv!r}, mul {mul!r}, post {post!r}) implementation {lv!r}")
+        elif kind == "outfix":
+            us, qs, lib_mul, lib = info
+            got = rep[1] if rep[0] == "ok" else rep[1]
+            if got != lib:
+                chk.disagree("c04.outfix", f"x[{us}] *= 2 {qs or ''} (coefficient {lib_mul}): model {rep[:2]} implementation {lib}")
         elif kind == "prog":
             desc, r, tol = info
             if rep[0] != "ok":
@@ -1270,6 +1306,17 @@ def run(tier, seed):
     if not ok:
         chk.fail("multiply|recursion", "x = unyt_array([1., 2.], 'km/m'); x *= 2 raises RecursionError",
                  {"python": hdr + "x = unyt_array([1.0, 2.0], 'km/m')\nx *= 2\nassert np.all(SI(x) == np.array([2000.0, 4000.0])), x\n"})
+
+    try:
+        aq = unyt_array([1.0, 2.0], "xla**2", registry=reg)
+        tq = np.arctan2(aq, aq)
+        wq = tq * tq.dot(aq)
+        ok = bool(np.isfinite(float(np.ravel(wq.d)[0])))
+    except Exception as e:  # noqa: BLE001
+        ok = core.exc_name(e) != "SymbolNotFoundError"
+    if not ok:
+        chk.fail("arith|registry-lost", "t = arctan2(a, a); t * t.dot(a) raises SymbolNotFoundError for a in a custom registry",
+                 {"python": snippet_header(True) + "a = Q([1.0, 2.0], 'xla**2')\nt = np.arctan2(a, a)\nw = t * t.dot(a)\nassert np.all(np.isfinite(SI(w))), w\n"})
 
     chk.assumptions = [
         "kernels whose homogeneity class is assumed, not proved: fmod, fmax/fmin (NaN handling aside they are max/min), nextafter, copysign, arctan2, matmul/vecdot (finite sums of products)",
